@@ -55,7 +55,10 @@ class TxView:
         self.outputs = [(o[0], o[1]) for o in r[1]]
         self.bytes = t.serialize()
         self.id = sha256d(self.bytes)
-        se = t.signable_equivalent().serialize()
+        # the message a signature covers, built from the FIELDS (not by asking the object): version, every reference
+        # with the signature slot blanked, every output
+        se = b'\x00' + vlq(len(self.inputs)) + b''.join(h + i.to_bytes(4, 'big') + b'\x00' for (h, i, _) in self.inputs) + \
+            vlq(len(self.outputs)) + b''.join(v.to_bytes(8, 'big') + b'\x02' + pk for (v, pk) in self.outputs)
         self.signable = se
 
 
